@@ -50,7 +50,17 @@ func (img Image) Keys(bucket string) []string {
 	return ks
 }
 
-// Equal compares two images bucket by bucket; it returns a description of the first difference.
+// DiffImage compares two images; "" when equal.
+func DiffImage(a, b Image) string {
+	for _, name := range Buckets {
+		if d := DiffBucket(a[name], b[name]); d != "" {
+			return "bucket " + name + ": " + d
+		}
+	}
+	return ""
+}
+
+// DiffBucket compares two buckets; it returns a description of the first difference.
 func DiffBucket(a, b map[string][]byte) string {
 	for k, v := range a {
 		w, ok := b[k]
@@ -102,6 +112,8 @@ type Rec struct {
 	Puts    int
 	Dels    int
 	OnFlush func(n int)
+	// OnBeforeFlush is called right before the inner Flush
+	OnBeforeFlush func()
 	// GetLog, when non-nil, receives every (bucket, key) read
 	GetLog func(bucket string, key []byte)
 }
@@ -139,6 +151,9 @@ func (r *Rec) CreateBucket(name []byte) (chain.DBBucket, error) {
 }
 
 func (r *Rec) Flush() error {
+	if r.OnBeforeFlush != nil {
+		r.OnBeforeFlush()
+	}
 	err := r.Inner.Flush()
 	r.Flushes++
 	if r.OnFlush != nil {
@@ -159,6 +174,9 @@ type Backend struct {
 	Close    func()
 	// CopyFile (Bolt only) copies the database file as committed to dst.
 	CopyFile func(dst string) error
+	// Committed (MemDB-backed only) returns the committed image at any moment: what a process
+	// that stops now and reopens would find. It may only change in Flush.
+	Committed func() Image
 }
 
 // OpenBoltFile opens an existing Bolt file (e.g. a copy taken at a commit point).
@@ -176,12 +194,14 @@ func Open(kind, dir string) (*Backend, error) {
 	switch kind {
 	case "mem":
 		db := chain.NewMemDB()
-		return &Backend{Kind: kind, DB: db, Snapshot: func() Image { return Dump(db) }, Close: func() {}}, nil
+		return &Backend{Kind: kind, DB: db, Snapshot: func() Image { return Dump(db) }, Close: func() {},
+			Committed: func() Image { return Image(db.VerifCommitted()) }}, nil
 	case "cache":
 		inner := chain.NewMemDB()
 		db := chain.NewCacheDB(inner)
 		// the committed image is what the inner database holds after the cache was flushed into it
-		return &Backend{Kind: kind, DB: db, Snapshot: func() Image { return Dump(inner) }, Close: func() {}}, nil
+		return &Backend{Kind: kind, DB: db, Snapshot: func() Image { return Dump(inner) }, Close: func() {},
+			Committed: func() Image { return Image(inner.VerifCommitted()) }}, nil
 	case "bolt":
 		path := filepath.Join(dir, "chain.db")
 		bdb, err := bbolt.Open(path, 0o600, &bbolt.Options{NoSync: true, NoFreelistSync: true})
